@@ -84,8 +84,10 @@ CLAIMS["C05"] = dict(
           "function under its contract and once more fully inlined; bounds columns are the equally scaled lower/upper bounds; (D3/T2) every "
           "accepted iterate is reported before the next iteration / exit; (D4) three-valued evaluation of the acceptance for a NaN / -inf "
           "ratio: not accepted, radius shrunk; (T6) the two trust-region drivers agree on the acceptance truth table; parameters are installed "
-          "before the solve; the settings factory fills fields by name. Step lengths >= 0, the brentq result and optimality for convex "
-          "problems are NOT decided. REFUTED only for values the executor fully models; unmodelled library calls give UNDECIDED."),
+          "before the solve; the settings factory fills fields by name; (D3/T2-root-finder-bracket) on every path to a bracketing root finder "
+          "the path condition implies a sign change of the callable over the bracket (value at the far end = the negated early-exit guard, "
+          "-trSize^2 at the centre under the recorded assumption that the centre is feasible), else an exact 1-D witness refutes. Step "
+          "lengths >= 0, the accuracy of the brentq result and optimality for convex problems are NOT decided. REFUTED only for values the executor fully models; unmodelled library calls give UNDECIDED."),
     design_ref="DESIGN.md section 4, C05 and section 11.8.1",
     technique="static analysis: symbolic execution of the source into exact polynomial terms with loop invariants; box-point (convex combination) algebra; three-valued (NaN) evaluation of guards")
 
@@ -311,7 +313,9 @@ CLAIMS["C17"] = dict(
           "maintenance consistent with the orientation, residual slot = f(new iterate), counter + 1, convergence flag = stagnation | |dx| < x_tol | "
           "|F| < r_tol; the loop guard; the returned root is the loop's iterate masked by the loop's flag (NaN otherwise) and "
           "SolutionInfo.converged is that flag; the solver handed to custom_root depends on its own (F, X0) only and the tangent solve is y/G for "
-          "linear g of slope +2 and -3; get_settings puts each parameter into the field of the same name and each tolerance reaches its own "
+          "linear g of slope +2 and -3; the root find_root returns is the value custom_root returns, unchanged and with derivative 1, for an interior "
+          "root and for a root on either bracket end (post-processing outside custom_root is differentiated ordinarily; JAX's tie rule for "
+          "clip / min / max is modelled); get_settings puts each parameter into the field of the same name and each tolerance reaches its own "
           "test. That the iteration reaches the tolerance and stays in the bracket for every function is trajectory dependent and NOT decided. "
           "A role guessed by behaviour only counts if the body then behaves exactly as specified, otherwise UNDECIDED; REFUTED only for derived values."),
     design_ref="DESIGN.md section 4, C17; section 11.8",
